@@ -2,7 +2,10 @@
 
 package mavl
 
-import "sync/atomic"
+import (
+	"reflect"
+	"sync/atomic"
+)
 
 // VerifResetGlobals puts the process-global state of this package back to what a
 // freshly started process has. The simulator calls it between runs, between
@@ -38,3 +41,22 @@ func VerifGlobalsInfo() (memTreeLen, tkCloseLen int, maxHeight int64) {
 
 // VerifRootIsLeaf tells whether the loaded tree consists of a single leaf (probe).
 func (t *Tree) VerifRootIsLeaf() bool { return t.root != nil && t.root.height == 0 }
+
+// VerifLocksSchedulable reports whether this package was compiled with the
+// channel-based simsync locks (hooks/rewrites.json): only then may a goroutine be
+// parked by the simulator while it holds ndb.mtx / heightMtx.
+func VerifLocksSchedulable() bool {
+	return reflect.TypeOf(&heightMtx).Elem().PkgPath() != "sync"
+}
+
+// VerifPruning reports whether a pruning pass is marked as running.
+func VerifPruning() bool { return isPruning() }
+
+// VerifWaitPrune waits for the background pruner goroutine(s) to finish.
+func VerifWaitPrune() { wg.Wait() }
+
+// VerifSetQuit sets the flag ClosePrune raises to make a running pruner stop at its
+// next iteration (ClosePrune then blocks in a WaitGroup, which the simulator cannot
+// schedule around; the harness raises the flag itself and lets the scheduler run
+// the pruner to its exit before calling Close).
+func VerifSetQuit(q bool) { quit = q }
